@@ -474,6 +474,7 @@ func init() {
 				{Name: "replaced-output", Run: c04Replace},
 				{Name: "nil-output", Run: c04NilOutputs},
 			}
+			jobs = append(jobs, rbJobs("C04", depth4(tier)+1)...)
 			if tier == "thorough" {
 				jobs = append(jobs, mc.Job{Name: "forms-3", Weight: 50, Run: func(r *mc.Report) { c04Forms(r, 3) }})
 			}
